@@ -44,11 +44,13 @@ def addAttr (acc : List Attr) (a : Attr) : List Attr :=
   else acc ++ [a]
 
 -- message types, by position in `enum ctl_proto_type` as extracted from ctl_proto.h
-def tGetAttrReq : Nat := 0
-def tGetAttrCfm : Nat := 1
-def tGetAttrRej : Nat := 2
-def tGetAllReq : Nat := 3
-def tGetAllCfm : Nat := 4
+/-- message type codes: the positions of the enumerators in `enum ctl_proto_type` (regenerated from ctl_proto.h) -/
+def typeCode (name : String) : Nat := Generated.CtlProtoType.idxOf name
+def tGetAttrReq : Nat := typeCode "ctl_proto_type_get_attr_req"
+def tGetAttrCfm : Nat := typeCode "ctl_proto_type_get_attr_cfm"
+def tGetAttrRej : Nat := typeCode "ctl_proto_type_get_attr_rej"
+def tGetAllReq : Nat := typeCode "ctl_proto_type_get_all_attr_req"
+def tGetAllCfm : Nat := typeCode "ctl_proto_type_get_all_attr_cfm"
 
 inductive Body where
   | cfm (type : Nat) (value : Bytes)
